@@ -15,6 +15,7 @@ import (
 	"sort"
 	"strconv"
 	"strings"
+	"time"
 
 	"golang.org/x/tools/go/ssa"
 )
@@ -153,7 +154,10 @@ func runProperty(pc *propertyCheck, tier, repo, verif, goarch string, seed int64
 			// obligations of secondary architectures are kept distinct
 			cx.R = R
 		}
-		for _, rule := range pc.rules {
+		for i, rule := range pc.rules {
+			if os.Getenv("OTTERLINT_TRACE") != "" {
+				fmt.Fprintf(os.Stderr, "TRACE rule #%d of %s start %s\n", i, pc.id, time.Now().Format("15:04:05"))
+			}
 			rule(cx)
 		}
 		name := arch
